@@ -7,17 +7,28 @@ package trzsz
 
 import (
 	"bytes"
+	"context"
+	"fmt"
 	"sync"
+	"time"
 )
+
+// VerifPauseWrite is one Write call of the transfer: when, and what.
+type VerifPauseWrite struct {
+	At   time.Time
+	Data []byte
+}
 
 type verifPauseBuffer struct {
 	mu  sync.Mutex
 	buf bytes.Buffer
+	log []VerifPauseWrite
 }
 
 func (b *verifPauseBuffer) Write(p []byte) (int, error) {
 	b.mu.Lock()
 	defer b.mu.Unlock()
+	b.log = append(b.log, VerifPauseWrite{time.Now(), append([]byte(nil), p...)})
 	return b.buf.Write(p)
 }
 
@@ -84,3 +95,161 @@ func (v *VerifPauseTransfer) SendDataV2(frame []byte) string {
 
 // Written returns everything written so far.
 func (v *VerifPauseTransfer) Written() []byte { return v.w.snapshot() }
+
+// WriteLog returns every Write call so far with its time.
+func (v *VerifPauseTransfer) WriteLog() []VerifPauseWrite {
+	v.w.mu.Lock()
+	defer v.w.mu.Unlock()
+	return append([]VerifPauseWrite(nil), v.w.log...)
+}
+
+// VerifPauseDown is our side of a download's data phase: the REAL pipelineRecvData (data reader) and
+// pipelineSendAck (acker) goroutines of a transfer, fed through AddLine.
+type VerifPauseDown struct {
+	v    *VerifPauseTransfer
+	ctx  *pipelineContext
+	size int64
+	now  chan<- struct{}
+	mu   sync.Mutex
+	end  time.Time // when the pipeline context was cancelled
+}
+
+// StartDownload starts pipelineRecvData and pipelineSendAck for a file of the given size (base64 mode);
+// the received data is discarded.
+func (v *VerifPauseTransfer) StartDownload(size int64) *VerifPauseDown {
+	c, cancel := context.WithCancelCause(context.Background())
+	ctx := &pipelineContext{c, cancel, make(chan struct{}, 1)}
+	v.t.transferConfig.Binary = false
+	ackChan, recvDataChan := v.t.pipelineRecvData(ctx)
+	now := v.t.pipelineSendAck(ctx, size, ackChan)
+	go func() {
+		for range recvDataChan {
+		}
+	}()
+	d := &VerifPauseDown{v: v, ctx: ctx, size: size, now: now}
+	go func() {
+		<-ctx.Done()
+		d.mu.Lock()
+		d.end = time.Now()
+		d.mu.Unlock()
+	}()
+	return d
+}
+
+// EndedAt returns when the pipeline context was cancelled (zero time if it was not).
+func (d *VerifPauseDown) EndedAt() time.Time {
+	d.mu.Lock()
+	defer d.mu.Unlock()
+	return d.end
+}
+
+// SetSaved does what pipelineSaveData does when the disk has everything: savedSteps = size, then the
+// ackImmediately signal.
+func (d *VerifPauseDown) SetSaved() {
+	d.v.t.savedSteps.Store(d.size)
+	select {
+	case d.now <- struct{}{}:
+	default:
+	}
+}
+
+// Outcome: "running", "succ" (the acker sent the final ack) or the error class of the cancel cause.
+func (d *VerifPauseDown) Outcome() string {
+	select {
+	case <-d.ctx.succ:
+		return "succ"
+	default:
+	}
+	if d.ctx.Err() == nil {
+		return "running"
+	}
+	return verifPauseErrClass(context.Cause(d.ctx))
+}
+
+// Cancel ends the goroutines.
+func (d *VerifPauseDown) Cancel() {
+	d.ctx.cancel(nil)
+	d.v.t.stopTransferringFiles(false)
+}
+
+// VerifProbeAck describes one acknowledgement fed to pipelineRecvAck.
+type VerifProbeAck struct {
+	Pause bool // recvCheckV2 returns it with pause = true (a keep-alive line precedes it)
+	Grow  bool // its length equals the current buffer size (and it is fast, and the limit is not reached)
+}
+
+// VerifPauseProbe runs the REAL pipelineRecvAck goroutine over the given acknowledgements, starting in
+// the buffer-size probing phase, and reports for each of them whether bufInitDone() was called (a token
+// in bufInitCh) and whether the probing phase was still on afterwards.  The last element of the results
+// is the error class of the pipeline ("ok" when it saw the final ack).
+func VerifPauseProbe(acks []VerifProbeAck) ([]bool, []bool, string) {
+	w := &verifPauseBuffer{}
+	t := newTransfer(w, nil, false, nil)
+	t.transferConfig.Protocol = kProtocolVersion3
+	t.transferConfig.Timeout = 5
+	t.transferConfig.MaxBufSize = 1 << 40
+	c, cancel := context.WithCancelCause(context.Background())
+	ctx := &pipelineContext{c, cancel, make(chan struct{}, 1)}
+	defer ctx.cancel(nil)
+	ackChan := make(chan trzszAck) // unbuffered: a send returns only when the previous iteration is over
+	size := int64(1) << 50
+	progress := t.pipelineRecvAck(ctx, size, ackChan, true)
+	released := make([]bool, len(acks))
+	initAfter := make([]bool, len(acks))
+	sample := func(i int) {
+		select {
+		case <-t.bufInitCh:
+			released[i] = true
+		default:
+		}
+		initAfter[i] = t.bufInitPhase.Load()
+	}
+	fail := func() ([]bool, []bool, string) {
+		return released, initAfter, verifPauseErrClass(context.Cause(ctx))
+	}
+	step := int64(0)
+	cur := t.bufferSize.Load() // the buffer size the loop will see for the next acknowledgement (it doubles on growth)
+	for i, a := range acks {
+		length := cur
+		if a.Grow {
+			cur *= 2
+		} else {
+			length--
+		}
+		select {
+		case ackChan <- trzszAck{time.Now(), length}:
+		case <-ctx.Done():
+			return fail()
+		case <-time.After(3 * time.Second):
+			return released, initAfter, "stuck"
+		}
+		if i > 0 {
+			sample(i - 1)
+		}
+		step += length
+		if a.Pause {
+			t.addReceivedData([]byte("#SUCC:=\n"), false)
+		}
+		t.addReceivedData([]byte(fmt.Sprintf("#SUCC:%d/%d\n", length, step)), false)
+		select {
+		case <-progress:
+		case <-ctx.Done():
+			return fail()
+		case <-time.After(3 * time.Second):
+			return released, initAfter, "stuck"
+		}
+	}
+	close(ackChan)
+	t.addReceivedData([]byte(fmt.Sprintf("#SUCC:%d\n", size)), false)
+	select {
+	case <-ctx.succ:
+	case <-ctx.Done():
+		return fail()
+	case <-time.After(3 * time.Second):
+		return released, initAfter, "stuck"
+	}
+	if len(acks) > 0 {
+		sample(len(acks) - 1)
+	}
+	return released, initAfter, "ok"
+}
